@@ -212,6 +212,48 @@ class DynamicSlicePlugin(PrimitiveLeafPlugin):
                     _stamp_type_and_shape(slice_sizes_val, (len(slice_sizes),))
                     _ensure_value_metadata(ctx, slice_sizes_val)
 
+        # XLA clamps the window into the operand: 0 <= start <= dim - size.
+        operand_dims = tuple(getattr(operand_var.aval, "shape", ()))
+        try:
+            max_start_val = _const_i64(
+                ctx,
+                [int(d) - int(sz) for d, sz in zip(operand_dims, slice_sizes)],
+                "dyn_slice_max_start",
+            )
+        except Exception:
+            operand_shape_val = ctx.builder.Shape(
+                operand_val,
+                _outputs=[ctx.fresh_name("dyn_slice_operand_shape")],
+            )
+            operand_shape_val.type = ir.TensorType(ir.DataType.INT64)
+            _stamp_type_and_shape(operand_shape_val, (rank,))
+            _ensure_value_metadata(ctx, operand_shape_val)
+            max_start_val = ctx.builder.Sub(
+                operand_shape_val,
+                slice_sizes_val,
+                _outputs=[ctx.fresh_name("dyn_slice_max_start")],
+            )
+            max_start_val.type = ir.TensorType(ir.DataType.INT64)
+            _stamp_type_and_shape(max_start_val, (rank,))
+            _ensure_value_metadata(ctx, max_start_val)
+        zero_starts = _const_i64(ctx, [0] * rank, "dyn_slice_zero_starts")
+        starts_ge0 = ctx.builder.Max(
+            starts_concat,
+            zero_starts,
+            _outputs=[ctx.fresh_name("dyn_slice_starts_ge0")],
+        )
+        starts_ge0.type = ir.TensorType(ir.DataType.INT64)
+        _stamp_type_and_shape(starts_ge0, (rank,))
+        _ensure_value_metadata(ctx, starts_ge0)
+        starts_concat = ctx.builder.Min(
+            starts_ge0,
+            max_start_val,
+            _outputs=[ctx.fresh_name("dyn_slice_starts_clamped")],
+        )
+        starts_concat.type = ir.TensorType(ir.DataType.INT64)
+        _stamp_type_and_shape(starts_concat, (rank,))
+        _ensure_value_metadata(ctx, starts_concat)
+
         ends_val = ctx.builder.Add(
             starts_concat,
             slice_sizes_val,
